@@ -418,8 +418,9 @@ func init() {
 		if e == nil {
 			return "bad-slot"
 		}
-		e.evals, e.cancelAt = 0, 0
+		e.evals, e.cancelAt = 0, optK(a, 2)
 		m := e.ai.GetMove(context.Background(), decPos(a[1]))
+		e.cancelAt = 0
 		return "m=" + encMove(m) + " " + digEngine(e)
 	}
 	opTable["aa"] = func(s *Session, a []string) string {
